@@ -149,3 +149,14 @@ Section Hints.
       | None => true
       end) (c_fields c)) R.
 End Hints.
+
+(* whole pipeline on a generated instance: model's from_json(loads(dumps(to_json v))) against the
+   implementation's restored object (None = an exception escaped) *)
+Definition pipe_case (R : registry) (ws : list N)
+    (c : val * list (bytes * str) * list (str * option bytes) * option val) : bool :=
+  let '(v, etab, dtab, r) := c in
+  opt_eqb val_eqb (pipeline (enc_of etab) (dec_of dtab) (isspace_of ws) R v) r.
+
+(* hypotheses of C05_roundtrip, evaluated on an instance *)
+Definition hyps (R : registry) (ws : list N) (v : val) : bool :=
+  has_type (isspace_of ws) R v TAny && keys_not_markers v && no_other v.
